@@ -620,6 +620,9 @@ class Node:
         Returns:
             the new :class:`~nutree.node.Node` instance
         """
+        if before is False:
+            before = None  # append (note that `False` is also an `int`)
+
         if isinstance(child, self._tree.__class__):
             if deep is None:
                 deep = True
@@ -797,6 +800,8 @@ class Node:
 
         if before is True:
             before = 0  # prepend
+        elif before is False:
+            before = None  # append (note that `False` is also an `int`)
 
         target_siblings = new_parent._children
         if target_siblings is None:
